@@ -21,6 +21,12 @@ def sh(cmd, cwd=None, timeout=1800):
     return r.returncode, (r.stdout + r.stderr)
 
 
+def patch_of(d):
+    """the agent's patch, or its hand-rebased version when a later fix: commit touched the same lines"""
+    r = os.path.join(d, "patch.rebased.diff")
+    return r if os.path.exists(r) else os.path.join(d, "patch.diff")
+
+
 def load_meta(d):
     p = os.path.join(d, "meta.json")
     try:
@@ -58,9 +64,7 @@ def cmd_verify(sid):
     try:
         rc0, o0 = sh(f"/venv/bin/python {d}/demo.py {wt}", timeout=600)
         res["demo_clean_exit"] = rc0
-        rca, oa = sh(f"git apply {d}/patch.diff", cwd=wt)
-        if rca != 0:
-            rca, oa = sh(f"git apply -3 {d}/patch.diff", cwd=wt)
+        rca, oa = sh(f"git apply {patch_of(d)}", cwd=wt)
         res["apply"] = rca
         if rca == 0:
             rc1, o1 = sh(f"/venv/bin/python {d}/demo.py {wt}", timeout=600)
@@ -88,16 +92,14 @@ def cmd_run(sid, tier="quick", pid=None):
     pid = pid or m.get("property") or sid.split("-")[0]
     rc, out = sh("git -C /repo status --porcelain --untracked-files=no")
     assert out.strip() == "", "/repo not clean: " + out
-    rca, oa = sh(f"git -C /repo apply {d}/patch.diff")
-    if rca != 0:
-        rca, oa = sh(f"git -C /repo apply -3 {d}/patch.diff")
+    rca, oa = sh(f"git -C /repo apply {patch_of(d)}")
     try:
         if rca != 0:
             print("patch does not apply:", oa[-300:])
             return None
         rc, out = sh(f"./check {pid} {tier}", cwd=HERE, timeout=7200)
     finally:
-        sh("git -C /repo checkout -- . ; git -C /repo reset -q")
+        sh("git -C /repo reset -q --hard HEAD")
     lines = [l for l in out.splitlines() if l.startswith(("VIOLATION", "  obligation", "KNOWN", pid + " ", "ENGINE-ERROR"))]
     print(sid, tier, "exit", rc)
     for l in lines[:6]:
